@@ -88,6 +88,6 @@ func TestVerifKratosClient(t *testing.T) {
 }
 
 func TestVerifKratosClientOutlier(t *testing.T) {
-	vRunDriver(t, vDriver{Name: "kratos.SentinelClientMiddleware(outlier)", DefaultRes: "verif-svc", HasFallback: true, CanPanic: true,
+	vRunDriver(t, vDriver{Name: "kratos.SentinelClientMiddleware(outlier)", OwnChain: true, DefaultRes: "verif-svc", HasFallback: true, CanPanic: true,
 		Run: run(true), Instance: instance(true), Rejected: rejected})
 }
